@@ -686,3 +686,52 @@ PROPERTIES["C09"] = {
             "trace. Non-trivial: >= 3 Next calls.",
     "assumptions": ["math/rand's generator (rngSource) is an oracle: only Intn/Int31n/Int63n/Float64 over its raw stream are modelled"],
 }
+
+
+# ------------------------------------------------------------------ cmdargs (C17)
+def cmdargs_known_class(k, case, exp_line, obs_line):
+    """D20: a generic command whose name begins with else / endif / endenum is a syntax error."""
+    if '"load" "err"' not in obs_line:
+        return False
+    for n in case[7][1]:
+        for s in n[2]:
+            if tag(s) == "rawcmd" and len(s) > 1 and tag(s[1]) == "t":
+                w = s[1][1].lstrip(" \t")
+                if w.startswith("else") or w.startswith("endif") or w.startswith("endenum"):
+                    return True
+    return False
+
+
+def cmdargs_features(case):
+    body = case[7][1][0][2]
+    raws = [s for s in body if tag(s) == "rawcmd"]
+    nargs = 0
+    labels = set()
+    for s in raws:
+        txt = "".join(e[1] for e in s[1:] if tag(e) == "t")
+        nargs += len(txt.split()) + sum(1 for e in s[1:] if tag(e) == "e")
+        if "\t" in txt:
+            labels.add("tab-separated")
+        if any(tag(e) == "e" for e in s[1:]):
+            labels.add("inline-expression")
+        name = txt.split()[0] if txt.split() else ""
+        for kw in ("if", "set", "jump", "call", "declare", "local", "enum", "case"):
+            if name.startswith(kw) and name != kw:
+                labels.add("keyword-prefixed")
+        if any(ord(c) > 127 for c in txt):
+            labels.add("multibyte")
+    labels.add("args=%d" % min(nargs, 12))
+    return sexp.dump(case[7]), nargs >= 4, sorted(labels)
+
+
+_mk("cmdargs", cmd_log_projection, cmdargs_features)
+FAMILIES["cmdargs"]["known_class"] = cmdargs_known_class
+PROPERTIES["C17"] = {
+    "families": [("cmdargs", 300, 10000)],
+    "rule": "2-6 generic commands per case written as raw text: names incl. keyword-prefixed (iffy, settings, jumpy, "
+            "caller, declared, localise, enumerate, cases) and multi-byte ones, stop, an unregistered name; words from "
+            "mixed alphabets (decimal literals, negatives, true/false and look-alikes, inf, NaN, 1e3, .5, 5., +5, 0x10, "
+            "multi-byte, punctuation), separated by blanks and tabs, inline expressions of every type next to words. "
+            "Compared: Next outcomes and the handler log (name, typed arguments). Non-trivial: >= 4 arguments.",
+    "assumptions": [],
+}
